@@ -1042,7 +1042,7 @@ def parse_primary_expr(lexer, unary_minus=False):
     elif token.type == "pattern":
         try:
             pattern = ValuePattern(token.value[2:-2])
-        except (re.error, OverflowError, RecursionError):
+        except (re.error, ValueError, OverflowError, RecursionError):
             raise CklSyntaxError(
                 f"Invalid pattern '{token}'", token.pos
             )
